@@ -1,5 +1,6 @@
 -- GENERATED from /repo by checks/ on every run. Do not edit.
 import TbbVerif.Core.Cint
+import TbbVerif.Model.C01Tso
 namespace TbbVerif.Generated.C01
 open TbbVerif.Cint
 def emptyTaskPool : Nat := 0
@@ -11,5 +12,8 @@ def proxyMailboxBit : Nat := 2
 def proxyPoolBit : Nat := 1
 def waitNodeRef : Nat := 1
 def waitNodeWait : Nat := 1
+def dispatchOrder : List String := ["bypass", "local", "mailbox", "resume", "fifo", "steal", "critical"]
+def dequeOrders : TbbVerif.C01.DequeTso.Orders := ⟨true, false, true, false⟩
+def dequeSites : List (String × String × String × String) := [("owner", "head", "load", "acq"), ("owner", "head", "load", "rlx"), ("owner", "head", "store", "rlx"), ("owner", "pool", "cas", "sc"), ("owner", "pool", "load", "rlx"), ("owner", "pool", "store", "rel"), ("owner", "pool", "store", "rlx"), ("owner", "tail", "fsub", "sc"), ("owner", "tail", "load", "rlx"), ("owner", "tail", "store", "rel"), ("owner", "tail", "store", "rlx"), ("thief", "head", "fadd", "sc"), ("thief", "head", "load", "rlx"), ("thief", "head", "store", "rlx"), ("thief", "pool", "cas", "sc"), ("thief", "pool", "load", "rlx"), ("thief", "pool", "store", "rel"), ("thief", "tail", "load", "acq")]
 
 end TbbVerif.Generated.C01
